@@ -2,5 +2,6 @@ SPECIFICATION MCSpec
 CONSTANTS
  NThreads = 2
  MaxCalls = 5
+ Env <- MCEnv
 INVARIANTS AtMostOneCreator OpenSeesCreatorSettings NoHalfInitialised LifetimeFollowsUsers RecreatableAfterLast UsersWellFormed
 CHECK_DEADLOCK FALSE
